@@ -945,7 +945,7 @@ func init() {
 		}
 	}
 	register(&Prop{
-		ID: "C14", Level: "fault_enumeration", Run: runC14, Cases: cases(48, 480), MinNonTrivial: 8,
+		ID: "C14", Level: "fault_enumeration", Run: runC14, Cases: cases(320, 1600), MinNonTrivial: 8,
 		Rule: "each case = one short seeded container history (1-3 owner addresses, arrays and maps, 4 commits) and its fault-free twin; for EVERY commit and EVERY position k of a ledger write/delete issued by that commit the history is re-executed with call k failing, " +
 			"in both modes (not applied / applied but reported failed), with immediate retry-until-success and with retry-later (continue the history, commit later), plus all pairs (second fault during the retry) for commits of <=12 writes; FastCommit and NondeterministicFastCommit, workers 1/2/8. " +
 			"Checked after each failure: error is an external error wrapping the fault; every pre-commit pending change is durably in the ledger (byte-equal to the twin) or still in the write set; pending counts agree; Retrieve returns the latest version of every slab; containers deep-equal the model; after retry registers byte-equal the twin's; final registers byte-equal the twin's. " +
@@ -954,7 +954,7 @@ func init() {
 		Mandatory:   []string{"faulted-commits", "retries-to-success", "retry-later", "double-faults", "commits-fully-enumerated"},
 	})
 	register(&Prop{
-		ID: "C15", Level: "exploration", Run: runC15, Cases: cases(64, 161), MinNonTrivial: 8,
+		ID: "C15", Level: "exploration", Run: runC15, Cases: cases(320, 801), MinNonTrivial: 8,
 		Rule: "universe = 4 slab ids (two owners, one of them twice, plus one temporary-address id); every stored version is a fresh immutable slab with a unique payload so each read identifies the write it observed. " +
 			"Quick: per case 250 PRNG walks of 30 steps over {store, remove, retrieve, retrieve-ignoring-deltas (caching / not), fast and relaxed commit with 1/3 workers, commits with an injected fault at position 1-3 (applied or not), drop-deltas, drop-cache, preload of a subset / of 14 ids (parallel path), storage re-creation}; after EVERY step all observations " +
 			"(exact write set, ledger bytes, is-loaded, Deltas, DeltasWithoutTempAddresses, DeltasSizeWithoutTempAddresses, HasUnsavedChanges per owner, read results) are compared with a three-layer model. Thorough additionally (case 0): closure over the abstract state space (per id: committed?, cached?, pending none/tombstone/version) of the REAL object, every operation from every reached state. " +
